@@ -4,6 +4,7 @@ CONSTANTS
   Filters = {1, 2, 3}
   K = 2
   Atomic = TRUE
+  PrivateConsts = TRUE
   MaxCalls = 5
 CONSTRAINT Bound
 INVARIANT NoCrossTalk
